@@ -344,16 +344,47 @@ def tmpdir():
     return TMP
 
 
+def case_date(c, default):
+    """the creation_date argument of the writer: None (the writer takes now()), or a datetime, possibly tz-aware"""
+    d = c.get('date', default)
+    if d == 'now':
+        return None
+    tz = None
+    if len(d) > 7 and d[7] is not None:
+        tz = datetime.timezone(datetime.timedelta(minutes=d[7]))
+    return datetime.datetime(*d[:7], tzinfo=tz)
+
+
+def tz_aware(c):
+    d = c.get('date')
+    return isinstance(d, list) and len(d) > 7 and d[7] is not None
+
+
+def rand_date(rng):
+    r = rng.random()
+    if r < 0.1:
+        return 'now'
+    d = [rng.choice([1, 1999, 2024, 9999]), rng.randint(1, 12), rng.randint(1, 28), rng.randint(0, 23),
+         rng.randint(0, 59), rng.randint(0, 59), rng.choice([0, 0, 5, 999999, rng.randint(0, 999999)])]
+    if r < 0.2:
+        d.append(rng.choice([0, 60, -330, 345]))
+    return d
+
+
+DATE_FORMS = ['now', [2024, 2, 29, 13, 14, 15, 0], [2024, 2, 29, 13, 14, 15, 250000], [1, 1, 1, 0, 0, 0, 0],
+              [2024, 2, 29, 0, 0, 0, 0], [2024, 2, 29, 13, 14, 15, 0, 0], [2024, 2, 29, 13, 14, 15, 7, 330]]
+
+
 def base_doc(c):
     """the document the library writes: the returned string, or the direct_io stream"""
     t = tables.build(c['spec'])
-    d = c.get('date', [2020, 1, 2, 3, 4, 5, 6])
+    dt = case_date(c, [2020, 1, 2, 3, 4, 5, 6])
     if c.get('writer') == 'direct_io':
         import io
         buf = io.StringIO()
-        t.to_json(c.get('generated_by', 'gen'), direct_io=buf, creation_date=datetime.datetime(*d))
+        t.to_json(c.get('generated_by', 'gen'), direct_io=buf, creation_date=dt)
         return json.loads(buf.getvalue())
-    return json.loads(t.to_json(c.get('generated_by', 'gen'), creation_date=datetime.datetime(*d)))
+    return json.loads(t.to_json(c.get('generated_by', 'gen'), creation_date=dt))
 
 
 def mutant_doc(c):
@@ -587,11 +618,19 @@ def load_in_child(path):
 
 def run_h5(c):
     t = tables.build(c['spec'])
+    if c.get('via_json'):
+        # as a table written by another tool comes in: through the JSON reader
+        t = Table.from_json(json.loads(t.to_json('other tool')))
     path = os.path.join(tmpdir(), 'm.h5')
     if os.path.exists(path):
         os.unlink(path)
     with h5py.File(path, 'w') as h:
-        t.to_hdf5(h, c.get('generated_by', 'gen'))
+        try:
+            t.to_hdf5(h, c.get('generated_by', 'gen'), creation_date=case_date(c, 'now'))
+        except Exception as e:  # noqa
+            # the writer refuses the table: there is no file to validate (the HDF5 writer is not modelled here)
+            return {'valid': ['writer-refused', exc_code(e)], 'report': [], 'cli': 'no file'}, (None, None), \
+                ['h5-writer-refused']
         for mu in c['muts']:
             try:
                 apply_h5(h, mu)
@@ -672,6 +711,8 @@ def encode(c):
     fv = [] if c.get('fv') is None else [[ord(ch) for ch in c['fv']]]
     if c['kind'] == 'json':
         return [0, enc_json(extra), fv]
+    if extra[0] is None:
+        return [1, [[], []], fv]
     return [1, extra[0], fv]
 
 
@@ -701,6 +742,8 @@ def decode(tree, c):
                                'omd': md(tr[3]), 'smd': md(tr[4]), 'type': dec_json(tr[5]),
                                'generated_by': dec_json(tr[6])}
         return out
+    if extra[0] is None:
+        return obs                   # the writer refused: nothing was validated on either side
     rep = tree[0]
     if rep[0] == -1:
         return {'valid': ['exc', rep[1]], 'report': [], 'cli': 'crash'}
@@ -837,6 +880,9 @@ def h5_facts(path):
 def oracle(c, obs):
     fails = []
     _, extra, _ = materialise(c)
+    if c['kind'] == 'h5' and extra[0] is None:
+        # to_hdf5 refused the table: allowed only where the case says the writer may refuse
+        return [] if c.get('may_refuse') else ['to_hdf5 refused a table: %s' % (obs['valid'],)]
     valid = obs['valid'] is True
     api_cli = obs['cli'] if isinstance(obs['cli'], list) else [obs['cli']]
     want_cli = 'valid' if valid else ('crash' if isinstance(obs['valid'], list) else 'invalid')
@@ -846,7 +892,7 @@ def oracle(c, obs):
         fails.append('unrecognised report line %s' % [r for r in obs['report'] if r[0] == 999][:1])
     if c['kind'] == 'json':
         doc = extra
-        if not c['muts'] and c.get('fv') in JSON_OK:
+        if not c['muts'] and c.get('fv') in JSON_OK and not tz_aware(c):
             if not valid:
                 fails.append('library-written JSON file (%s form, --format-version %r) of a vocabulary-type table is not '
                              'reported valid: %s %s' % (c.get('writer', 'returned string'), c.get('fv'), obs['valid'],
@@ -872,7 +918,7 @@ def oracle(c, obs):
         return fails[:3]
     tree, facts = extra
     fv = c.get('fv')
-    if not c['muts'] and fv in H5_21 and not valid:
+    if not c['muts'] and fv in H5_21 and not valid and not tz_aware(c):
         fails.append('library-written HDF5 file of a vocabulary-type table is not reported valid with '
                      '--format-version %r: %s %s' % (fv, obs['valid'], obs['report']))
     if valid:
@@ -907,6 +953,25 @@ BASES = [
 ]
 
 
+def tax_spec(omd):
+    n = len(omd)
+    return {'oids': ['O%d' % (i + 1) for i in range(n)], 'sids': ['S1', 'S2'],
+            'mat': [[float(i + 1), 0.0] if i % 2 == 0 else [0.0, 2.0] for i in range(n)],
+            'omd': omd, 'smd': None, 'type': 'OTU table', 'layout': ['dense']}
+
+
+TAX_SPECS = [
+    tax_spec([{'taxonomy': 'k__Bacteria; p__Firmicutes'}, {'taxonomy': None}, {'taxonomy': 'k__Archaea; p__Euryarchaeota'}]),
+    tax_spec([{'taxonomy': None}, {'taxonomy': 'k__Bacteria; p__Firmicutes'}]),
+    tax_spec([{'taxonomy': 'k__Bacteria; p__Firmicutes'}, {'taxonomy': 'k__Archaea'}]),
+    tax_spec([{'taxonomy': ['k__Bacteria', 'p__Firmicutes']}, {'taxonomy': None}, {'taxonomy': ['k__Archaea']}]),
+    tax_spec([{'taxonomy': ['k__Bacteria', 'p__Firmicutes']}, {'taxonomy': 'k__Archaea; p__X'}]),
+    tax_spec([{'taxonomy': 'k__Bacteria'}, None, {'taxonomy': 'k__Archaea; p__X'}]),
+    tax_spec([{'taxonomy': None}, {'taxonomy': None}]),
+    tax_spec([{'KEGG_Pathways': 'a; b'}, {'KEGG_Pathways': None}]),
+]
+
+
 def rand_table(rng):
     spec = tables.rand_spec(rng, max_r=4, max_c=4, ttype=rng.choice(VOCAB))
     return spec
@@ -917,6 +982,11 @@ def gen(rng, tier):
         nr, nc = len(b['oids']), len(b['sids'])
         yield {'kind': 'json', 'spec': b, 'muts': []}
         yield {'kind': 'json', 'spec': b, 'muts': [], 'writer': 'direct_io'}
+        for dform in DATE_FORMS:
+            # the optional creation_date= argument of the three writers
+            yield {'kind': 'json', 'spec': b, 'muts': [], 'date': dform}
+            yield {'kind': 'json', 'spec': b, 'muts': [], 'writer': 'direct_io', 'date': dform}
+            yield {'kind': 'h5', 'spec': b, 'muts': [], 'date': dform}
         for fv in SPELLINGS[1:]:
             # every spelling of --format-version on library-written files of the three forms
             yield {'kind': 'json', 'spec': b, 'muts': [], 'fv': fv}
@@ -931,15 +1001,20 @@ def gen(rng, tier):
         yield {'kind': 'h5', 'spec': b, 'muts': []}
         for mu in h5_mutations(nr, nc):
             yield {'kind': 'h5', 'spec': b, 'muts': [mu]}
+    for ts in TAX_SPECS:
+        # taxonomy as other tools write it (flat text, null on some rows): the writer may refuse, a file it
+        # writes has to validate
+        for via in (True, False):
+            yield {'kind': 'h5', 'spec': ts, 'muts': [], 'via_json': via, 'may_refuse': True}
+            yield {'kind': 'json', 'spec': ts, 'muts': []}
     n_un, n_rand, n_h5 = (120, 500, 160) if tier == 'quick' else (1200, 3000, 1500)
     for _ in range(n_un):
         s = rand_table(rng)
         yield {'kind': 'json', 'spec': s, 'muts': [], 'generated_by': rng.choice(['gen', 'x y', 'biom 2.1']),
-               'date': [rng.choice([1, 1999, 2024]), rng.randint(1, 12), rng.randint(1, 28), rng.randint(0, 23),
-                        rng.randint(0, 59), rng.randint(0, 59), rng.choice([0, 5, 999999])]}
+               'date': rand_date(rng)}
         yield {'kind': 'json', 'spec': s, 'muts': [], 'writer': 'direct_io', 'generated_by': rng.choice(['gen', 'x y']),
-               'date': [rng.choice([1, 1999, 2024]), rng.randint(1, 12), rng.randint(1, 28), rng.randint(0, 23),
-                        rng.randint(0, 59), rng.randint(0, 59), rng.choice([0, 5, 999999])]}
+               'date': rand_date(rng)}
+        yield {'kind': 'h5', 'spec': s, 'muts': [], 'date': rand_date(rng)}
         yield {'kind': 'h5', 'spec': s, 'muts': [], 'fv': rng.choice(SPELLINGS)}
         yield {'kind': 'json', 'spec': s, 'muts': [], 'fv': rng.choice(SPELLINGS),
                'writer': rng.choice(['direct_io', 'string'])}
@@ -987,6 +1062,10 @@ def classify(c):
     tags = [c['kind'] + (':mutations=%d' % len(c['muts'])), '%s:format-version=%r' % (c['kind'], c.get('fv'))]
     if c['kind'] == 'json':
         tags.append('json-writer:' + c.get('writer', 'string'))
+    if not c['muts'] and 'date' in c:
+        d = c['date']
+        tags.append('%s-creation_date:%s' % (c['kind'], 'now()' if d == 'now' else 'tz-aware' if tz_aware(c) else
+                                               'with microseconds' if d[6] else 'without microseconds'))
     for mu in c['muts']:
         tags.append('%s:%s' % (c['kind'], mu[0]))
     tags.append('layout0:' + str((c['spec'].get('layout') or ['dense'])[0]))
